@@ -6,6 +6,7 @@ from ..capability import Capability
 from ..pdu import GlobalBroadcast
 
 from ..apdu import WhoIsRequest, IAmRequest, IHaveRequest, SimpleAckPDU
+from ..basetypes import Segmentation
 from ..errors import ExecutionError, InconsistentParameters, \
     MissingRequiredParameter, ParameterOutOfRange
 from ..task import FunctionTask
@@ -149,6 +150,13 @@ class WhoIsIAmServices(Capability):
         # extract the device instance number
         device_instance = apdu.iAmDeviceIdentifier[1]
         if _debug: WhoIsIAmServices._debug("    - device_instance: %r", device_instance)
+        if (device_instance < 0) or (device_instance > 4194303):
+            raise ParameterOutOfRange("iAmDeviceIdentifier out of range")
+
+        # segmentation supported is one of the four defined values
+        if (apdu.segmentationSupported not in Segmentation.enumerations) \
+                and (apdu.segmentationSupported not in Segmentation.enumerations.values()):
+            raise ParameterOutOfRange("segmentationSupported out of range")
 
         # extract the source address
         device_address = apdu.pduSource
